@@ -354,9 +354,20 @@ class Connection(ExportImport):
         """Return a Connection for the named database."""
         connection = self.connections.get(database_name)
         if connection is None:
-            new_con = self._db.databases[database_name].open(
+            db = self._db.databases[database_name]
+            before = self.before
+            if before is not None:
+                # ``before`` was checked against this connection's
+                # database.  The other database may not have been
+                # written since then: reading it just after its newest
+                # transaction is reading it at ``before``, and is not
+                # refused as a point in its future.
+                newest = p64(u64(db.lastTransaction()) + 1)
+                if newest < before:
+                    before = newest
+            new_con = db.open(
                 transaction_manager=self.transaction_manager,
-                before=self.before,
+                before=before,
             )
             self.connections.update(new_con.connections)
             new_con.connections = self.connections
